@@ -195,7 +195,16 @@ class DULServiceProvider(threading.Thread):
                     evt = self.event.popleft()
                 except IndexError:
                     continue
-                self.state_machine.action(evt)
+                try:
+                    self.state_machine.action(evt)
+                except socket.error:
+                    # the transport failed while a PDU was being written (the peer has reset or
+                    # closed the connection): that is a closed transport connection, not a reason
+                    # for the provider to die with its socket left open
+                    if self.dul_socket:
+                        self.dul_socket.close()
+                        self.dul_socket = None
+                    self.event.append(fsm.Events.EVT_17)
         except Exception:
             self.to_service_user.put(pdu.AAbortPDU(source=0, reason_diag=0))
             raise
